@@ -31,17 +31,14 @@ Definition cls_match {A : Type} (x : out A) (c : cls) : bool :=
   | _, _ => false
   end.
 
-Fixpoint confs_eqb (a b : list (str * (bool * list str))) : bool :=
-  match a with
-  | [] => true
-  | (k, (on, vals)) :: a' =>
-      match assoc k b with
-      | Some (on', vals') =>
-          Bool.eqb on on' && Nat.eqb (List.length vals) (List.length vals')
-          && forallb (fun p => str_eqb (fst p) (snd p)) (combine vals vals') && confs_eqb a' b
-      | None => false
-      end
-  end.
+(** enterprise post-state: every stored raw conf record is the serialisation (serializeConf) of the
+    model's conf under that key, and the model has no other conf *)
+Definition confs_match (model : list (str * (bool * list str))) (raws : list (str * str)) : bool :=
+  forallb (fun kr => match assoc (fst kr) model with
+                     | Some c => str_eqb (ser_conf c) (snd kr)
+                     | None => false
+                     end) raws
+  && forallb (fun kc => match assoc (fst kc) raws with Some _ => true | None => false end) model.
 
 (** observation of a successfully executed aergo.system transaction *)
 Record runobs := mkRunObs {
@@ -83,7 +80,7 @@ Record ccase := mkCase {
   c_env : env; c_tx : tx; c_state : state;
   c_tbl : list (str * orow); c_enc : list (str * str);
   c_vtypes : cls; c_vstate : cls; c_exec : cls;
-  c_post : option (str * list (str * (bool * list str)));    (* enterprise admins / confs after exec *)
+  c_post : option (str * list (str * str));                  (* enterprise admins / raw conf records after exec *)
   c_run : option runobs }.                                   (* system: records before / after cmd.run *)
 
 Definition case_results (c : ccase) :=
@@ -117,7 +114,7 @@ Definition case_ok (c : ccase) : bool :=
      end
   && match c_post c, ee with
      | Some (admins, confs), Ok ev' =>
-         str_eqb admins (ev_admins ev') && confs_eqb confs (ev_confs ev') && confs_eqb (ev_confs ev') confs
+         str_eqb admins (ev_admins ev') && confs_match (ev_confs ev') confs
      | Some _, _ => false
      | None, _ => true
      end.
